@@ -87,7 +87,7 @@ def valExpect (pats : List Pat) (res : TRes) (buf : Bytes) : Bool :=
     | some p =>
       match p.search buf with
       | none => false
-      | some (a, e) => before == text (buf.take a) && m == (buf.drop a).take (e - a) && after == text (buf.drop e)
+      | some (a, e) => before == text (buf.take a) && m == decodeReplace ((buf.drop a).take (e - a)) && after == text (buf.drop e)
   | _ => false
 
 def valRup (P : Option Pat) (res : TRes) (buf : Bytes) : Bool :=
@@ -159,6 +159,7 @@ def step (ps1 bl : Bytes) (op : TOp) (o : OpObs) (r : Ref) : V Ref :=
   | .terminate => r.term ps1 o fun st out => .term st out
   | .terminate0 => r.term ps1 o fun st out => if st = 0 then .out out else .err .failure
   | .raise => if o.res == .unit && o.pieces.isEmpty then .ok r else .bad
+  | .wait => if o.res == .unit && o.pieces.isEmpty then .ok r else .bad
   | .probe _ => if o.res == .err .borrowed && o.pieces.isEmpty then .ok r else .bad
 
 /-- the calls of the body, up to and including a `raise`; returns whether it raised -/
@@ -209,6 +210,23 @@ def entered (c : Case) (o : Obs) : Bool :=
          | .terminated, none => false
          | _, none => true
          | _, some _ => false))
+
+/-- diagnostic only: which part of the observation the specification rejects -/
+def explain (c : Case) (o : Obs) : String :=
+  let ps1 := prompt c
+  if forbidden (blacklist c) (lineOf c ++ [Tty.CR]) then "command line refused: see enter / next" else
+  let (out0, rem) := start ps1 c.steps
+  if !(o.enter.res == .unit && o.enter.pieces.all (0 < ·) && o.enter.pieces.sum == (Tty.echo false (lineOf c ++ [Tty.CR])).length) then "enter" else
+  if !promptOk ps1 out0 rem.status then "outside: prompt in initial output" else
+  let rec go (i : Nat) : List TOp → List OpObs → Ref → String
+    | [], [], r => s!"after the body: phase {repr r.phase} pending {r.pend.length}"
+    | op :: ops, ob :: os, r =>
+      (match Ref.step ps1 (blacklist c) op ob r with
+       | .ok r' => (match op with | .raise => "after raise" | _ => go (i + 1) ops os r')
+       | .bad => s!"operation {i} rejected: phase {repr r.phase} pending {r.pend.length} status {repr r.rem.status}"
+       | .outside => s!"operation {i} outside the domain")
+    | _, _, _ => s!"operation count at {i}"
+  go 0 c.ops o.ops { rem := rem, pend := out0 }
 
 end Run
 
